@@ -1,0 +1,17 @@
+//go:build verif
+
+package types
+
+// Contracts for the verification framework in /verif (comment-only file; compiled
+// only with -tags verif, where it contributes nothing but these comments).
+
+//@ // ---- C20: entry points under the no-panic sweep (no functional claim here: they must not panic for any field values) ----
+//@ func (msg MsgCreateAccount) ValidateBasic() (r0)
+//@   requires msg != nil
+//@   prop C20
+//@ func (msg MsgPublishReferencePayloadLink) ValidateBasic() (r0)
+//@   requires msg != nil
+//@   prop C20
+//@ func (msg MsgStoreSignature) ValidateBasic() (r0)
+//@   requires msg != nil
+//@   prop C20
